@@ -621,7 +621,7 @@ def add_traces(v, r, what):
     v.add_findings(r["findings"], "traces:" + r["tag"])
 
 
-def add_monitor(v, mon, states_file, source, what):
+def add_monitor(v, mon, states_file, source, what, replay=None):
     v.cov["parts"].append({"part": "monitor:" + source, "what": what, "real_states_evaluated": mon["states"], "bad": len(mon["bad"])})
     v.cov["evaluations"] += mon["states"]
     if mon["bad"]:
@@ -631,6 +631,9 @@ def add_monitor(v, mon, states_file, source, what):
             st = json.loads(lines[b["index"] - 1])
             for c in b["clauses"]:
                 prop, kind = c.split(":", 1)
-                fs.append({"prop": prop, "kind": "monitor:" + kind, "detail": "a state of the real arena violates %s: links (parent,prev,next,first,last) = %s live = %s" % (c, st["links"], st["live"]),
-                           "case": {"state": st, "witness": st.get("w")}})
+                f = {"prop": prop, "kind": "monitor:" + kind, "detail": "a state of the real arena violates %s: links (parent,prev,next,first,last) = %s live = %s" % (c, st["links"], st["live"]),
+                     "case": {"state": st, "witness": st.get("w"), "path": (st.get("w") or {}).get("path"), "call": (st.get("w") or {}).get("call")}}
+                if replay:
+                    f["replay_cmd"] = {"bundles": replay["bundles_file"], "flags": replay["flags"], "profile": "debug" if replay["debug_assertions"] else "release", "monitor": True}
+                fs.append(f)
         v.add_findings(fs, "monitor:" + source)
